@@ -135,7 +135,12 @@ pub fn c08_scenario(seed: u64, idx: u64) -> Scenario {
     }
     let nonce = rng.next();
     sc.tree = gen_tree(&mut rng, &TreeOpts { root: "root".into(), max_entries: 8, big_files: false, symlinks: false, request_size: 10000, nonce });
-    let paths: Vec<String> = tree_paths(&mut rng, &sc.tree).into_iter().map(|(p, _)| p).collect();
+    let mut paths: Vec<String> = tree_paths(&mut rng, &sc.tree).into_iter().map(|(p, _)| p).collect();
+    // a few focus paths so that different requests meet on the same resource
+    if rng.chance(2, 3) {
+        rng.shuffle(&mut paths);
+        paths.truncate(rng.range(1, 3));
+    }
     // a small palette of distinct requests, each issued on one or more connections
     let kinds = rng.range(2, 8);
     let mut palette: Vec<Vec<u8>> = vec![];
